@@ -248,7 +248,7 @@ func (rr *RRSIG) Sign(k crypto.Signer, rrset []RR) error {
 	rr.TypeCovered = h0.Rrtype
 	rr.Labels = uint8(CountLabel(h0.Name))
 
-	if strings.HasPrefix(h0.Name, "*") {
+	if strings.HasPrefix(h0.Name, "*.") {
 		rr.Labels-- // wildcard, remove from label count
 	}
 
